@@ -1489,7 +1489,7 @@ pub fn run(prop: &'static str, tier: Tier) -> ! {
             fam("tlf replacements", tlf_replacement_family(&seed_set, &proto), &mut all);
             fam("mutations", mutation_family(&seed_set, Tier::Thorough, &proto, tier == Tier::Thorough), &mut all);
             fam("short strings", short_strings_family(3, &proto), &mut all);
-            fam("structural strings", struct_strings_family(tier.pick(5, 6), &proto), &mut all);
+            fam("structural strings", struct_strings_family(tier.pick(5, 7), &proto), &mut all);
             fam("long tlfs", c12_long_tlfs(&proto), &mut all);
             let msgs = message_space();
             fam("message product", gen_family(&msgs, 1, &proto, "generated: message-level product x valid encodings"), &mut all);
@@ -1514,9 +1514,13 @@ pub fn run(prop: &'static str, tier: Tier) -> ! {
             let entries = entry_space(false);
             let files: Vec<RFile> = entries.into_iter().step_by(tier.pick(3, 1)).map(|e| vec![getlist(vec![e])]).collect();
             fam("entry product", gen_family(&files, 1, &proto, "generated: list-entry product x valid encodings"), &mut all);
+            if tier == Tier::Thorough {
+                let sub: Vec<RFile> = files.iter().step_by(4).cloned().collect();
+                fam("entry product (two choices)", gen_family(&sub, 2, &proto, "generated: list-entry product x valid encodings (two choices)"), &mut all);
+            }
             fam("message product", gen_family(&message_space(), tier.pick(1, 2), &proto, "generated: message-level product x valid encodings"), &mut all);
             fam("short strings", short_strings_family(3, &proto), &mut all);
-            fam("structural strings", struct_strings_family(tier.pick(5, 6), &proto), &mut all);
+            fam("structural strings", struct_strings_family(tier.pick(5, 7), &proto), &mut all);
             fam("mutations", mutation_family(&seed_set, Tier::Thorough, &proto, tier == Tier::Thorough), &mut all);
             fam("splices", splice_family(&small_seeds, tier.pick(100, 2000), &proto), &mut all);
             fam("tlf replacements", tlf_replacement_family(&seed_set, &proto), &mut all);
